@@ -2,11 +2,15 @@ package main
 
 import (
 	"crypto/sha256"
+	"encoding/base64"
 	"fmt"
 	"math/big"
 	"reflect"
 	"sort"
 	"strings"
+
+	ecommon "github.com/ethereum/go-ethereum/common"
+	ecrypto "github.com/ethereum/go-ethereum/crypto"
 
 	g "github.com/zenon-network/go-zenon/chain/genesis/mock"
 	"github.com/zenon-network/go-zenon/chain/nom"
@@ -38,6 +42,8 @@ type arWorld struct {
 	tokOwned  types.ZenonTokenStandard // issued by User1: mintable, burnable
 	tokFixed  types.ZenonTokenStandard // issued by User2: not mintable, not burnable
 	tokBridge types.ZenonTokenStandard // issued by User1, owner updated to the bridge contract
+	htlcKeep  []types.Hash
+	declared  []types.Hash
 	fuseIds, stakeIds, htlcIds, projectIds, phaseIds, liqStakeIds, wrapIds, sporkIds []types.Hash
 	unwrapTx  []types.Hash
 	preimage  []byte
@@ -47,6 +53,7 @@ type arWorld struct {
 
 const (
 	arTssPub  = "AsAQx1M3LVXCuozDOqO5b9adj/PItYgwZFG/xTDBiZzT" // vm/embedded/tests/z_bridge_test.go
+	arTssPriv = "tuSwrTEUyJI1/3y5J8L8DSjzT/AQG2IK3JG+93qhhhI="
 	arEvmAddr = "0x5fbdb2315678afecb367f032d93f642f64180aa3"
 	arEvmAdr2 = "0x5aaaa2315678afecb367f032d93f642f64180aa3"
 	arEvmNet  = "0x323b5d4c32345ced77393b3530b1eed0f346429d"
@@ -56,6 +63,23 @@ func newArWorld(r *arRun) *arWorld {
 	return &arWorld{r: r, admin: g.User5.Address,
 		guardians: []types.Address{g.User1.Address, g.User2.Address, g.User3.Address},
 		preimage:  []byte("zvh-autoreceive-preimage-0123456")}
+}
+
+// arTssSign signs a 32-byte message hash with the bridge's TSS key of the mock world (base64 signature, as the orchestrator does)
+func arTssSign(hash []byte, err error) string {
+	if err != nil {
+		return ""
+	}
+	kb, _ := base64.StdEncoding.DecodeString(arTssPriv)
+	key, err := ecrypto.ToECDSA(kb)
+	if err != nil {
+		return ""
+	}
+	sig, err := ecrypto.Sign(hash, key)
+	if err != nil {
+		return ""
+	}
+	return base64.StdEncoding.EncodeToString(sig)
 }
 
 func zn(x int64) *big.Int { return new(big.Int).Mul(big.NewInt(x), big.NewInt(g.Zexp)) }
@@ -119,8 +143,14 @@ func (w *arWorld) canonical(to types.Address, method string) *arSpec {
 		return &arSpec{from: g.Pillar7.Address, tok: qsr, amount: zn(1000 + int64(r.c.R.Intn(1000)))}
 	case "pillar.WithdrawQsr", "sentinel.WithdrawQsr":
 		return &arSpec{from: g.Pillar7.Address, tok: znn, amount: zero}
-	case "pillar.CollectReward", "sentinel.CollectReward", "stake.CollectReward", "liquidity.CollectReward":
-		return &arSpec{from: g.Pillar1.Address, tok: znn, amount: zero}
+	case "pillar.CollectReward":
+		return &arSpec{from: []types.Address{g.Pillar1.Address, g.Pillar2.Address, u1}[r.c.R.Intn(3)], tok: znn, amount: zero}
+	case "sentinel.CollectReward":
+		return &arSpec{from: g.Pillar5.Address, tok: znn, amount: zero}
+	case "stake.CollectReward":
+		return &arSpec{from: u2, tok: znn, amount: zero}
+	case "liquidity.CollectReward":
+		return &arSpec{from: u1, tok: znn, amount: zero}
 	case "pillar.Update", "sentinel.Update", "stake.Update", "liquidity.Update", "accelerator.Update":
 		return &arSpec{from: u3, tok: znn, amount: zero}
 	// ---- token
@@ -144,7 +174,7 @@ func (w *arWorld) canonical(to types.Address, method string) *arSpec {
 		return &arSpec{from: u1, tok: znn, amount: zero, args: []interface{}{g.Secp1PubKeyB64, sig}}
 	// ---- stake
 	case "stake.Stake":
-		return &arSpec{from: u2, tok: znn, amount: zn(1 + int64(r.c.R.Intn(20))), args: []interface{}{constants.StakeTimeMinSec * int64(1+r.c.R.Intn(12))},
+		return &arSpec{from: u2, tok: znn, amount: zn(1 + int64(r.c.R.Intn(20))), args: []interface{}{constants.StakeTimeMinSec * int64(1+(r.c.R.Intn(48)/36)*r.c.R.Intn(12))},
 			onAccept: func(h types.Hash) { w.stakeIds = append(w.stakeIds, h) }}
 	case "stake.Cancel":
 		return &arSpec{from: u2, tok: znn, amount: zero, args: []interface{}{lastOr(w.stakeIds, r)}}
@@ -153,7 +183,12 @@ func (w *arWorld) canonical(to types.Address, method string) *arSpec {
 		return &arSpec{from: g.Spork.Address, tok: znn, amount: zero, args: []interface{}{w.name("spork"), "created by the autoreceive stream"},
 			onAccept: func(h types.Hash) { w.sporkIds = append(w.sporkIds, h) }}
 	case "spork.ActivateSpork":
-		return &arSpec{from: g.Spork.Address, tok: znn, amount: zero, args: []interface{}{lastOr(w.sporkIds, r)}}
+		id := lastOr(w.sporkIds, r)
+		// (a node halts itself when an activated spork is not in its list of implemented sporks - C17; the history's own
+		// sporks are therefore declared implemented, as Node.ActivateSpork does)
+		types.ImplementedSporksMap[id] = true
+		w.declared = append(w.declared, id)
+		return &arSpec{from: g.Spork.Address, tok: znn, amount: zero, args: []interface{}{id}}
 	// ---- accelerator
 	case "accelerator.Donate", "liquidity.Donate":
 		return &arSpec{from: u1, tok: []types.ZenonTokenStandard{znn, qsr}[r.c.R.Intn(2)], amount: zn(1 + int64(r.c.R.Intn(5)))}
@@ -177,6 +212,9 @@ func (w *arWorld) canonical(to types.Address, method string) *arSpec {
 			args:     []interface{}{u2, w.frontierTime() + 3600, definition.HashTypeSHA256, uint8(32), lock[:]},
 			onAccept: func(h types.Hash) { w.htlcIds = append(w.htlcIds, h) }}
 	case "htlc.Reclaim":
+		if len(w.htlcKeep) > 0 && r.c.R.Intn(2) == 0 { // an entry nobody unlocks: reclaimable once it has expired
+			return &arSpec{from: u1, tok: znn, amount: zero, args: []interface{}{w.htlcKeep[0]}}
+		}
 		return &arSpec{from: u1, tok: znn, amount: zero, args: []interface{}{lastOr(w.htlcIds, r)}}
 	case "htlc.Unlock":
 		return &arSpec{from: u2, tok: znn, amount: zero, args: []interface{}{lastOr(w.htlcIds, r), w.preimage}}
@@ -200,12 +238,12 @@ func (w *arWorld) canonical(to types.Address, method string) *arSpec {
 	case "liquidity.SetIsHalted":
 		return &arSpec{from: w.admin, tok: znn, amount: zero, args: []interface{}{r.c.R.Intn(4) == 0}}
 	case "liquidity.LiquidityStake":
-		return &arSpec{from: u1, tok: w.tokOwned, amount: big.NewInt(int64(100 + r.c.R.Intn(100))), args: []interface{}{constants.StakeTimeMinSec * int64(1+r.c.R.Intn(12))},
+		return &arSpec{from: u1, tok: w.tokOwned, amount: big.NewInt(int64(100 + r.c.R.Intn(100))), args: []interface{}{constants.StakeTimeMinSec * int64(1+(r.c.R.Intn(48)/36)*r.c.R.Intn(12))},
 			onAccept: func(h types.Hash) { w.liqStakeIds = append(w.liqStakeIds, h) }}
 	case "liquidity.CancelLiquidityStake":
 		return &arSpec{from: u1, tok: znn, amount: zero, args: []interface{}{lastOr(w.liqStakeIds, r)}}
 	case "liquidity.UnlockLiquidityStakeEntries":
-		return &arSpec{from: u1, tok: w.tokOwned, amount: zero}
+		return &arSpec{from: w.admin, tok: w.tokOwned, amount: zero}
 	case "liquidity.SetAdditionalReward":
 		return &arSpec{from: w.admin, tok: znn, amount: zero, args: []interface{}{zn(1), zn(2)}}
 	case "liquidity.ChangeAdministrator", "bridge.ChangeAdministrator":
@@ -220,17 +258,26 @@ func (w *arWorld) canonical(to types.Address, method string) *arSpec {
 	case "bridge.ChangeTssECDSAPubKey":
 		return &arSpec{from: w.admin, tok: znn, amount: zero, args: []interface{}{arTssPub, "", ""}}
 	case "bridge.SetNetwork":
-		return &arSpec{from: w.admin, tok: znn, amount: zero, args: []interface{}{uint32(2), uint32(123), "Ethereum", arEvmNet, "{}"}}
+		// (SetNetwork on an existing network empties its token pairs: the plan leaves network 2/123 of the set-up alone)
+		return &arSpec{from: w.admin, tok: znn, amount: zero, args: []interface{}{uint32(2), uint32(789), "Another", arEvmNet, "{}"}}
 	case "bridge.SetNetworkMetadata":
 		return &arSpec{from: w.admin, tok: znn, amount: zero, args: []interface{}{uint32(2), uint32(123), `{"NewApy":15}`}}
 	case "bridge.RemoveNetwork":
-		return &arSpec{from: w.admin, tok: znn, amount: zero, args: []interface{}{uint32(2), uint32(999)}}
+		return &arSpec{from: w.admin, tok: znn, amount: zero, args: []interface{}{uint32(2), uint32(456)}}
 	case "bridge.SetTokenPair":
 		return &arSpec{from: w.admin, tok: znn, amount: zero, args: []interface{}{uint32(2), uint32(123), types.ZnnTokenStandard, arEvmAddr, true, true, false,
 			big.NewInt(100), uint32(15), uint32(20), `{"APR": 15, "LockingPeriod": 100}`}}
 	case "bridge.RemoveTokenPair":
-		return &arSpec{from: w.admin, tok: znn, amount: zero, args: []interface{}{uint32(2), uint32(123), types.QsrTokenStandard, arEvmAddr}}
+		return &arSpec{from: w.admin, tok: znn, amount: zero, args: []interface{}{uint32(2), uint32(123), w.tokBridge, arEvmAdr2}}
 	case "bridge.Halt":
+		if r.c.R.Intn(2) == 0 { // anybody, with the TSS signature over (method, nonce)
+			nonce := uint64(0)
+			if bi, err := definition.GetBridgeInfoVariable(r.n.Chain().GetFrontierAccountStore(types.BridgeContract).Storage()); err == nil {
+				nonce = bi.TssNonce
+			}
+			return &arSpec{from: u3, tok: znn, amount: zero, args: []interface{}{
+				arTssSign(implementation.GetBasicMethodMessage(definition.HaltMethodName, nonce, definition.NoMClass, r.n.Chain().ChainIdentifier()))}}
+		}
 		return &arSpec{from: w.admin, tok: znn, amount: zero, args: []interface{}{""}}
 	case "bridge.Unhalt":
 		return &arSpec{from: w.admin, tok: znn, amount: zero}
@@ -238,16 +285,31 @@ func (w *arWorld) canonical(to types.Address, method string) *arSpec {
 		return &arSpec{from: u1, tok: znn, amount: zn(1 + int64(r.c.R.Intn(4))), args: []interface{}{uint32(2), uint32(123), arEvmAdr2},
 			onAccept: func(h types.Hash) { w.wrapIds = append(w.wrapIds, h) }}
 	case "bridge.UpdateWrapRequest":
-		return &arSpec{from: u1, tok: znn, amount: zero, args: []interface{}{lastOr(w.wrapIds, r), strings.Repeat("A", 88)}}
+		id := lastOr(w.wrapIds, r)
+		sig := strings.Repeat("A", 88)
+		if req, err := definition.GetWrapTokenRequestById(r.n.Chain().GetFrontierAccountStore(types.BridgeContract).Storage(), id); err == nil && req != nil {
+			ca := ecommon.HexToAddress(arEvmNet)
+			sig = arTssSign(implementation.GetWrapTokenRequestMessage(req, &ca))
+		}
+		return &arSpec{from: u3, tok: znn, amount: zero, args: []interface{}{id, sig}}
 	case "bridge.UnwrapToken":
 		var tx types.Hash
 		r.c.R.Read(tx[:])
-		return &arSpec{from: u1, tok: znn, amount: zero, args: []interface{}{uint32(2), uint32(123), tx, uint32(r.c.R.Intn(100)), u2, arEvmAddr, big.NewInt(1000), strings.Repeat("A", 88)},
+		up := &definition.UnwrapTokenParam{NetworkClass: 2, ChainId: 123, TransactionHash: tx, LogIndex: 7,
+			ToAddress: []types.Address{u2, u3, types.AcceleratorContract}[r.c.R.Intn(3)], TokenAddress: []string{arEvmAddr, arEvmAdr2}[r.c.R.Intn(2)],
+			Amount: big.NewInt(int64(1000 + r.c.R.Intn(1000)))}
+		sig := arTssSign(implementation.GetUnwrapTokenRequestMessage(up))
+		return &arSpec{from: u1, tok: znn, amount: zero, args: []interface{}{up.NetworkClass, up.ChainId, up.TransactionHash, up.LogIndex, up.ToAddress, up.TokenAddress, up.Amount, sig},
 			onAccept: func(h types.Hash) { w.unwrapTx = append(w.unwrapTx, tx) }}
 	case "bridge.RevokeUnwrapRequest":
-		return &arSpec{from: w.admin, tok: znn, amount: zero, args: []interface{}{lastOr(w.unwrapTx, r), uint32(0)}}
+		return &arSpec{from: w.admin, tok: znn, amount: zero, args: []interface{}{lastOr(w.unwrapTx, r), uint32(7)}}
 	case "bridge.Redeem":
-		return &arSpec{from: u1, tok: znn, amount: zero, args: []interface{}{lastOr(w.unwrapTx, r), uint32(0)}}
+		// (an unwrap request registered some momentums ago: the redeem delay of the pairs is 2 momentums)
+		tx := lastOr(w.unwrapTx, r)
+		if k := len(w.unwrapTx); k >= 3 {
+			tx = w.unwrapTx[r.c.R.Intn(k-1)]
+		}
+		return &arSpec{from: u1, tok: znn, amount: zero, args: []interface{}{tx, uint32(7)}}
 	case "bridge.SetRedeemDelay":
 		return &arSpec{from: w.admin, tok: znn, amount: zero, args: []interface{}{uint64(5)}}
 	}
@@ -583,7 +645,10 @@ func (w *arWorld) setup() bool {
 		}
 		call(types.LiquidityContract, "SetTokenTuple")
 		call(types.BridgeContract, "ChangeTssECDSAPubKey")
-		call(types.BridgeContract, "SetNetwork")
+		send(&nom.AccountBlock{Address: w.admin, ToAddress: types.BridgeContract, Data: definition.ABIBridge.PackMethodPanic(definition.SetNetworkMethodName,
+			uint32(2), uint32(123), "Ethereum", arEvmNet, "{}")})
+		send(&nom.AccountBlock{Address: w.admin, ToAddress: types.BridgeContract, Data: definition.ABIBridge.PackMethodPanic(definition.SetNetworkMethodName,
+			uint32(2), uint32(456), "Sidechain", arEvmNet, "{}")})
 		if !steps(1) {
 			return false
 		}
@@ -606,15 +671,28 @@ func (w *arWorld) setup() bool {
 		pair(w.tokBridge, arEvmAdr2, true)
 		call(types.LiquidityContract, "LiquidityStake")
 		call(types.BridgeContract, "WrapToken")
+		call(types.BridgeContract, "UnwrapToken")
+		call(types.BridgeContract, "UnwrapToken")
+		call(types.BridgeContract, "UnwrapToken")
 	}
 	if r.regime >= 3 {
 		call(types.HtlcContract, "Create")
+		other := sha256.Sum256([]byte("a preimage nobody reveals"))
+		if b := send(&nom.AccountBlock{Address: u1, ToAddress: types.HtlcContract, TokenStandard: types.ZnnTokenStandard, Amount: zn(2),
+			Data: definition.ABIHtlc.PackMethodPanic(definition.CreateHtlcMethodName, u2, w.frontierTime()+600, definition.HashTypeSHA256, uint8(32), other[:])}); b != nil {
+			w.htlcKeep = append(w.htlcKeep, b.Hash)
+		}
 	}
 	if !steps(2) {
 		return false
 	}
 	w.receiveAll(u1)
 	w.receiveAll(u2)
+	if r.c.Args["debug"] != "" && r.regime >= 2 {
+		if ni, err := definition.GetNetworkInfoVariable(n.Chain().GetFrontierAccountStore(types.BridgeContract).Storage(), 2, 123); err == nil {
+			r.c.Hit(fmt.Sprintf("dbg setup network pairs=%d name=%s", len(ni.TokenPairs), ni.Name))
+		}
+	}
 	return steps(1)
 }
 
@@ -708,16 +786,82 @@ func (r *arRun) runPlan() {
 				return
 			}
 		}
+		// the lock periods end and epochs pass: the time-dependent methods are called again later
+		if rep == 0 && r.fast {
+			later := func(days int64, methods [][2]string) bool {
+				r.jumpSec = days * 3600 // compressed calendar: a "day" is an hour
+				for i := 0; i < 3; i++ {
+					if !flush() {
+						return false
+					}
+				}
+				c.Hit(fmt.Sprintf("time-jump-%dd", days))
+				for _, lm := range methods {
+					addr, _ := abiAddrOf(lm[0])
+					for _, gen := range []string{"canonical", "canonical", "semantic"} {
+						var spec *arSpec
+						if gen == "canonical" {
+							spec = w.canonical(addr, lm[1])
+						} else {
+							spec = w.semantic(addr, lm[1])
+						}
+						if spec == nil {
+							continue
+						}
+						if call := w.pack(addr, lm[1], spec, gen); call != nil {
+							if blk := r.deliver(call, []string{"tpl", "ext"}[c.R.Intn(2)]); blk != nil {
+								pending++
+							}
+							if r.failed {
+								return false
+							}
+						}
+					}
+					if pending >= 4 {
+						if !flush() {
+							return false
+						}
+					}
+				}
+				for i := 0; i < 3; i++ {
+					if !flush() {
+						return false
+					}
+				}
+				return true
+			}
+			// day 28: inside the sentinel revoke window (27..30); rewards of 28 epochs
+			if !later(arJumpDays(c, 28), [][2]string{{"sentinel", "Revoke"}, {"pillar", "CollectReward"}, {"sentinel", "CollectReward"}, {"stake", "CollectReward"},
+				{"liquidity", "CollectReward"}, {"htlc", "Reclaim"}, {"plasma", "CancelFuse"}, {"liquidity", "UnlockLiquidityStakeEntries"}, {"liquidity", "CancelLiquidityStake"}}) {
+				return
+			}
+			// day 31 (or day 84 = inside the pillar revoke window 83..90 in a quarter of the histories): stakes of one period end
+			d2 := int64(3)
+			if r.id%4 == 3 {
+				d2 = 56
+			}
+			if !later(arJumpDays(c, d2), [][2]string{{"stake", "Cancel"}, {"liquidity", "CancelLiquidityStake"}, {"pillar", "Revoke"}, {"pillar", "WithdrawQsr"},
+				{"sentinel", "WithdrawQsr"}, {"pillar", "CollectReward"}, {"stake", "CollectReward"}, {"liquidity", "CollectReward"}, {"sentinel", "CollectReward"}}) {
+				return
+			}
+		}
 	}
 }
 
+func arJumpDays(c *Ctx, d int64) int64 {
+	if v, ok := c.Args["jumpdays"]; ok {
+		fmt.Sscan(v, &d)
+	}
+	return d
+}
+
 // arMethodOrder: the contract's methods in name order, with the ones that take the administration away (Emergency zeroes
-// the administrator and halts; ChangeAdministrator with a foreign address; Revoke) after all others, and
+// the administrator and halts; ChangeAdministrator with a foreign address; Revoke; removals) after all others, and
 // ProposeAdministrator (the guardians vote the administrator back) last.
 func arMethodOrder(a abi.ABIContract) []string {
 	rank := func(m string) int {
 		switch m {
-		case "Revoke":
+		case "ActivateSpork", "RemoveTokenPair", "RemoveNetwork", "Revoke":
 			return 1
 		case "NominateGuardians":
 			return 2
@@ -725,14 +869,93 @@ func arMethodOrder(a abi.ABIContract) []string {
 			return 3
 		case "Halt":
 			return 4
-		case "Emergency":
+		case "Unhalt":
 			return 5
-		case "ProposeAdministrator":
+		case "Emergency":
 			return 6
+		case "ProposeAdministrator":
+			return 7
 		}
 		return 0
 	}
 	names := sortedMethodNames(a)
 	sort.SliceStable(names, func(i, j int) bool { return rank(names[i]) < rank(names[j]) })
 	return names
+}
+
+// ---------------------------------------------------------------------------------------------------
+// scenarios: contract-to-contract sends that carry an amount and whose receive fails. rollbackEmbedded then refunds
+// to the sending CONTRACT with empty call data, and applySend of that refund runs the method lookup of the destination.
+// ---------------------------------------------------------------------------------------------------
+
+var arScenarios = []string{"wrap-owned-unburnable", "wrap-owned-unburnable-htlc-regime"}
+
+func (w *arWorld) runScenario(name string) {
+	r := w.r
+	n := r.n
+	send := func(tpl *nom.AccountBlock) *nom.AccountBlock {
+		tpl.BlockType = nom.BlockTypeUserSend
+		if tpl.Amount == nil {
+			tpl.Amount = big.NewInt(0)
+		}
+		b, err := n.Submit(tpl)
+		if err != nil {
+			r.c.Hit("scenario-send-rejected")
+			if r.c.Args["debug"] != "" {
+				r.c.Hit(fmt.Sprintf("scenario-send-rejected %s %v", arLabel(tpl.ToAddress, tpl.Data), err))
+			}
+			return nil
+		}
+		r.noteAccepted(b, "scenario-"+name, "tpl")
+		return b
+	}
+	steps := func(k int) bool {
+		for i := 0; i < k; i++ {
+			if !r.step() {
+				return false
+			}
+		}
+		return true
+	}
+	switch name {
+	case "wrap-owned-unburnable", "wrap-owned-unburnable-htlc-regime":
+		// The administrator lists a token as "owned" (wraps burn it, redeems mint it) that the bridge does not own:
+		// tokOwned, issued by User1, burnable. Wrapping works (anyone may burn a burnable token). Then the token's owner
+		// switches IsBurnable off (UpdateToken, his right at any time). The next wrap makes the bridge send
+		// Burn(amount) to the token contract; the burn is refused (not burnable, sender is not the owner); the refund of
+		// the amount goes to the bridge contract with empty data.
+		pair := func() {
+			send(&nom.AccountBlock{Address: w.admin, ToAddress: types.BridgeContract, Data: definition.ABIBridge.PackMethodPanic(definition.SetTokenPairMethod,
+				uint32(2), uint32(123), w.tokOwned, "0x5bbbb2315678afecb367f032d93f642f64180aa3", true, true, true, big.NewInt(1), uint32(0), uint32(2), `{}`)})
+		}
+		pair()
+		if !steps(int(constants.MinSoftDelay) + 2) {
+			return
+		}
+		pair()
+		if !steps(1) {
+			return
+		}
+		wrap := func() *nom.AccountBlock {
+			return send(&nom.AccountBlock{Address: g.User1.Address, ToAddress: types.BridgeContract, TokenStandard: w.tokOwned, Amount: big.NewInt(500),
+				Data: definition.ABIBridge.PackMethodPanic(definition.WrapTokenMethodName, uint32(2), uint32(123), arEvmAdr2)})
+		}
+		if wrap() == nil || !steps(3) { // burnable: wrap applied, burn applied
+			return
+		}
+		r.c.Hit("scenario-wrap-while-burnable-done")
+		send(&nom.AccountBlock{Address: g.User1.Address, ToAddress: types.TokenContract,
+			Data: definition.ABIToken.PackMethodPanic(definition.UpdateTokenMethodName, w.tokOwned, g.User1.Address, true, false)})
+		if !steps(2) {
+			return
+		}
+		if wrap() == nil {
+			return
+		}
+		// a call queued behind: must be processed too
+		send(&nom.AccountBlock{Address: g.User2.Address, ToAddress: types.TokenContract, TokenStandard: types.ZnnTokenStandard, Amount: big.NewInt(1),
+			Data: definition.ABIToken.PackMethodPanic(definition.BurnMethodName)})
+		steps(4)
+		r.c.Hit("scenario-wrap-after-unburnable-done")
+	}
 }
